@@ -98,7 +98,7 @@ func (o op) String() string {
 	case "weight":
 		s = fmt.Sprintf("SetStoreWeight(%d)", o.id)
 	case "labels":
-		s = fmt.Sprintf("UpdateStoreLabels(%d)", o.id)
+		s = fmt.Sprintf("UpdateStoreLabels(%d, zone=%s)", o.id, o.addr)
 	case "cleanup":
 		s = "RemoveTombStoneRecords()"
 	case "peer":
@@ -167,7 +167,8 @@ func newModel(ids []uint64, faults bool) *model {
 	}
 	add(op{kind: "put", id: ids[len(ids)-1], addr: "s1:1"}) // the address of the live bootstrap store
 	add(op{kind: "weight", id: ids[0]})
-	add(op{kind: "labels", id: ids[0]})
+	add(op{kind: "labels", id: ids[0], addr: "z1"})
+	add(op{kind: "labels", id: ids[0], addr: "z2"}) // an existing label gets another value
 	add(op{kind: "check"})
 	add(op{kind: "cleanup"})
 	m.ops = append(m.ops, op{kind: "restart"})
@@ -261,7 +262,7 @@ func (m *model) Apply(i int) *hist.Violation {
 		m.weightN++
 		err = rc.SetStoreWeight(o.id, m.weightN, m.weightN+0.5)
 	case "labels":
-		err = rc.UpdateStoreLabels(o.id, []*metapb.StoreLabel{{Key: "zone", Value: "z1"}}, false)
+		err = rc.UpdateStoreLabels(o.id, []*metapb.StoreLabel{{Key: "zone", Value: o.addr}}, false)
 	case "cleanup":
 		err = rc.RemoveTombStoneRecords()
 	case "peer":
